@@ -65,6 +65,16 @@ Live(e) ==
        /\ stats' = [stats EXCEPT !.live = @ + 1]
        /\ UNCHANGED <<z, grants, last, drift>>
 
+\* the exemption at the real listener: a flood from the source that was issued the cookie is answered (80 % allows
+\* for datagrams lost in the burst); the same cookie from another address, a mangled one, or a bare client cookie is
+\* not exempt -- those floods are also recorded as ordinary bursts and judged against the bound
+CookieFlood(e) ==
+    LET bad == IF e.kind = "own" THEN e.answered * 10 < e.sent * 8 ELSE e.answered * 2 > e.sent
+        shape == IF e.kind = "own" THEN "sourceWithItsOwnServerCookieRateLimited" ELSE "floodWithForeignOrMangledCookieNotLimited"
+    IN /\ viol' = IF bad THEN viol \cup {<<"C16", l, shape>>} ELSE viol
+       /\ stats' = [stats EXCEPT !.live = @ + 1]
+       /\ UNCHANGED <<z, grants, last, drift>>
+
 Init == l = 1 /\ z = 0 /\ grants = <<>> /\ last = 0 /\ viol = {} /\ drift = {} /\
         stats = [reqs |-> 0, granted |-> 0, quiet |-> 0, cookies |-> 0, good |-> 0, prevkey |-> 0, crossaddr |-> 0, live |-> 0]
 Step == /\ l <= N /\ l' = l + 1
@@ -73,6 +83,7 @@ Step == /\ l <= N /\ l' = l + 1
              [] e.ev = "req" -> Req(e)
              [] e.ev = "cookie" -> CookieEv(e)
              [] e.ev = "cookie_live" -> Live(e)
+             [] e.ev = "cookie_flood" -> CookieFlood(e)
              [] OTHER -> UNCHANGED <<z, grants, last, viol, drift, stats>>
 Spec == Init /\ [][Step]_vars
 Report == l = N + 1 => PrintT(<<"REPORT", ToJson([viol |-> {v \in viol : v[1] \in Enforce}, drift |-> drift, lines |-> N, stats |-> stats])>>)
